@@ -42,8 +42,8 @@ TEXT = {
             "full for UTF-8 and the default; legacy decoders by observation"),
     "C17": ("Proved on the exact model of Rust's integer parsers: C17_request_content_length, C17_chunk_size, C17_status_code (acceptance implies digits only); exhaustive strings over a 13-symbol alphabet in all five positions against the implementation.",
             "full"),
-    "C18": ("Proved at header-list level: C18_header_tokens_case, C18_has_chunked_case, C18_decode_case, C18_response_framing_case, C18_request_framing_case, C18_text_name_case, C18_charset_label_case (every byte string). Byte-stream level (two streams differing only in letter case of names) by the metamorphic oracle on the implementation and correspondence on permuted streams.",
-            "full at list level, stream level by correspondence"),
+    "C18": ("Proved at byte-stream level: MessageHeaders::parse commutes with ASCII lower-casing of its input (Headers.parse_lower, with validUtf8_lower against core's IsValidUTF8), hence C18_request_stream_case / _block and C18_response_stream_case / _block: two streams with the same first line and tail whose header regions are equal up to letter case (names, chunked, any token) get the same verdict, error, boundary, method/target or status, size accounting, framing, chunk decoding and body, and header lists equal up to case (also after the de-chunking rewrite, dechunkRewrite_case). Decoding: C18_decode_after_parse, C18_decode_case, C18_header_tokens_case, C18_text_name_case, C18_charset_label_case (every byte string). The metamorphic oracle on the implementation and correspondence on permuted streams tie this to the code.",
+            "full"),
 }
 
 TECH = "Lean 4 theorems about a hand-written executable model + differential correspondence check (model driver vs real crate) + property oracles on the implementation"
